@@ -668,7 +668,12 @@ var perms4 = func() [][]int {
 
 // queried posts one tick of the period to the real periodic server and returns the (seid, urr) pairs the
 // simulated kernel was asked for in GET_MULTI_REPORTS requests.
-func (c *checker) queried(period time.Duration) map[[2]uint64]bool {
+func (c *checker) queried(period time.Duration) map[[2]uint64]bool { return c.w.Queried(period) }
+
+// Queried posts one tick of the period to the real periodic server and returns the (seid, urr) pairs the
+// simulated kernel was asked for in GET_MULTI_REPORTS requests.
+func (w *World) Queried(period time.Duration) map[[2]uint64]bool {
+	c := struct{ w *World }{w}
 	c.w.K.TakeLog()
 	ps := c.w.G.VPerio()
 	ps.VTick(period)
@@ -818,6 +823,7 @@ func (c *checker) perio() {
 			}
 		}
 	}
+	c.evals += int64(RemovalUnregisters(c.w, func(sig, what string, r map[string]interface{}) { rep(sig, what, r) }))
 	// Update URR: the registration follows the triggers of the update
 	for _, before := range []bool{false, true} {
 		for _, after := range []bool{false, true} {
@@ -877,4 +883,79 @@ func RunC03(tier string) {
 	run.Assumption("the attribute schema in harness/internal/verif/xlate/canon.go transcribes the gtp5g UAPI; BAR delay is compared in the IE's unit (multiples of 50 ms, one octet)")
 	run.Assumption("ticks are injected events (real tickers run with periods of an hour and more)")
 	run.Finish()
+}
+
+// RemovalUnregisters: URR removal always unregisters the URR from periodic reporting - also when the data plane no
+// longer knows the URR (it answers the removal with ENOENT): two periodic URRs of one session and one of another
+// share a period; one of them is dropped from the simulated kernel out of band and then removed through the
+// driver (Remove URR, or as part of the removal of all of a session's URRs); the next tick must query exactly the
+// others. fail(sig, what, replay) reports; returns the number of evaluated cases.
+func RemovalUnregisters(w *World, fail func(sig, what string, replay map[string]interface{})) (evals int) {
+	P1 := 3600 * time.Second
+	a, b := uint64(0x21), uint64(0x22)
+	id := uint32(7000)
+	wait := func() {
+		if alive, st := w.G.VPerio().VQuiesce(&w.gid); !alive || st == "stuck" {
+			evid.Infra("periodic server not quiescent (%v %s)", alive, st)
+		}
+	}
+	mk := func(u uint32) *ie.IE {
+		return ie.NewCreateURR(ie.NewURRID(u), ie.NewMeasurementMethod(0, 1, 0), ie.NewReportingTriggers(0x01, 0x00), ie.NewMeasurementPeriod(P1))
+	}
+	for _, lost := range []bool{false, true} {
+		for victim := 0; victim < 3; victim++ {
+			evals++
+			w.K.Reset()
+			us := []struct {
+				s uint64
+				u uint32
+			}{{a, id + 1}, {a, id + 2}, {b, id + 3}}
+			id += 3
+			desc := map[string]interface{}{"op": "CreateURR x3 (one period), RemoveURR of one", "removed": fmt.Sprintf("(%#x, %d)", us[victim].s, us[victim].u),
+				"data_plane_lost_the_urr_before": lost}
+			ok := true
+			for _, x := range us {
+				if err := w.G.CreateURR(x.s, mk(x.u)); err != nil {
+					fail("perio:create-error", err.Error(), desc)
+					ok = false
+				}
+			}
+			if !ok {
+				continue
+			}
+			wait()
+			v := us[victim]
+			if lost {
+				w.K.Drop(simk.Key{SEID: v.s, Kind: 'U', ID: v.u})
+			}
+			_, err := w.G.RemoveURR(v.s, ie.NewRemoveURR(ie.NewURRID(v.u)))
+			if lost && err == nil {
+				evid.Infra("simulated kernel answered the removal of a dropped URR without an error")
+			}
+			wait()
+			q := w.Queried(P1)
+			for i, x := range us {
+				k := [2]uint64{x.s, uint64(x.u)}
+				if i == victim && q[k] {
+					fail(fmt.Sprintf("perio:remove-keeps-registration:lost=%v", lost), fmt.Sprintf("URR (%#x, %d) was removed (data plane had lost it before: %v, driver answered %v) but is still queried on the tick of its period", x.s, x.u, lost, err), desc)
+				}
+				if i != victim && !q[k] {
+					fail(fmt.Sprintf("perio:removal-unregisters-others:lost=%v", lost), fmt.Sprintf("after the removal of (%#x, %d), (%#x, %d) is no longer queried on the tick of the shared period", v.s, v.u, x.s, x.u), desc)
+				}
+			}
+			for i, x := range us {
+				if i != victim {
+					_, _ = w.G.RemoveURR(x.s, ie.NewRemoveURR(ie.NewURRID(x.u)))
+				}
+			}
+			wait()
+			q = w.Queried(P1)
+			for _, x := range us {
+				if q[[2]uint64{x.s, uint64(x.u)}] {
+					fail("perio:remove-keeps-registration:all", fmt.Sprintf("all three periodic URRs removed, a tick still queries (%#x, %d)", x.s, x.u), desc)
+				}
+			}
+		}
+	}
+	return
 }
